@@ -126,12 +126,26 @@ pub fn check(property: &str, tier: &str, started: Instant) -> i32 {
             return 2;
         }
     };
-    if !agg.aborted_runs.is_empty() {
-        eprintln!("HARNESS-ERROR: a worker process died during run indexes {:?} (stack overflow or abort inside the system under test or the harness); reproduce with: sim worker <world> <tier> <seed> <i> <i+1> /tmp/x.json", agg.aborted_runs);
-        return 2;
-    }
     let findings = runner::load_findings();
     let mut violations = 0u64;
+    for i in agg.aborted_runs.iter().take(3) {
+        // the process executing the history died (stack overflow / abort): the long-lived server is gone, which is
+        // neither "answers like a fresh server" nor "a well-formed forest one can keep walking"
+        let s = runner::run_seed(seed, *i);
+        violations += 1;
+        let path = runner::replay_path(&format!("{}-{}-abort.json", property, s));
+        let h = world_h::generate(s, tier_of(tier));
+        let rv = json!({"world": "H", "property": property, "signature": "process_abort", "seed": s, "run": i, "minimised": false,
+            "violation": {"kind": "process_abort", "detail": "the process executing this history died (stack overflow or abort inside the library)"},
+            "case": {"regenerate": {"base_seed": seed, "run": i, "tier": tier}, "history": h},
+            "how_to_replay": "cd /verif && ./check replay <this file>  (re-executes the history in a child process)"});
+        if let Err(e) = runner::write_json(&path, &rv) {
+            eprintln!("HARNESS-ERROR: {}", e);
+            return 2;
+        }
+        println!("VIOLATION property={} replay={}", property, path.display());
+        println!("  signature=process_abort run_index={} seed={}", i, s);
+    }
     let mut known_seen: Vec<String> = vec![];
     let mut minimised_budget = 6;
     // minimisation is a service, not the verdict: at most 3 minutes of it per check
@@ -227,6 +241,31 @@ pub fn replay(v: &Value, path: &str) -> i32 {
     let property = v["property"].as_str().unwrap_or("");
     let signature = v["signature"].as_str().unwrap_or("");
     let seed = v["seed"].as_u64().unwrap_or(0);
+    if let Some(r) = v["case"].get("regenerate") {
+        let exe = std::env::current_exe().expect("exe");
+        let out = runner::verif_path(&format!("target/scratch/replay-abort-{}.json", std::process::id()));
+        let i = r["run"].as_u64().unwrap_or(0);
+        let st = std::process::Command::new(exe)
+            .arg("worker").arg("H").arg(r["tier"].as_str().unwrap_or("quick")).arg(r["base_seed"].as_u64().unwrap_or(1).to_string()).arg(i.to_string()).arg((i + 1).to_string()).arg(&out)
+            .stdout(std::process::Stdio::null()).stderr(std::process::Stdio::null()).status();
+        let _ = std::fs::remove_file(&out);
+        let _ = std::fs::remove_file(out.with_extension("progress"));
+        return match st {
+            Ok(s) if !s.success() => {
+                println!("VIOLATION property={} replay={}", property, path);
+                println!("  reproduced: the process executing the history died again ({:?})", s.code());
+                1
+            }
+            Ok(_) => {
+                println!("not reproduced: the history ran to its end");
+                0
+            }
+            Err(e) => {
+                eprintln!("HARNESS-ERROR: {}", e);
+                2
+            }
+        };
+    }
     let h: History = match serde_json::from_value(v["case"].clone()) {
         Ok(h) => h,
         Err(e) => {
